@@ -103,4 +103,11 @@ func NewPrintCommand$1$1 returns (err)
     assert @files [C16] len(#arg0) == 1 && #arg0[0] == o.GlobalConfig.LogFileName
   }
 
+
+// the command's own flag table: the option names the options loader and the reporters read (C16)
+func NewPrintCommand returns (cmd)
+  props C16 C06 C08
+  ensures @name [C16] cmd != nil && cmd.Name == "print"
+  ensures @flags [C16 C06] len(cmd.Flags) == 2 && CmdStrFlag(cmd.Flags[0], "begin") && CmdStrFlag(cmd.Flags[1], "end")
+
 @*/
